@@ -5,14 +5,18 @@
 //! and complete Redis compatibility.
 
 use std::sync::{Arc, OnceLock};
-use std::time::Instant;
-use mlua::{Lua, Result as LuaResult, MultiValue, Value as LuaValue};
+use std::time::{Duration, Instant};
+use mlua::{HookTriggers, Lua, Result as LuaResult, MultiValue, Value as LuaValue, VmState};
 use sha1::{Sha1, Digest};
 
 use crate::error::{Result, FerrousError};
 use crate::protocol::resp::RespFrame;
 use crate::storage::StorageEngine;
 use crate::storage::commands::executor::LuaCommandAdapter;
+
+/// How long a script may run (Redis's lua-time-limit default). A script that runs longer is ended with a Lua
+/// error: the client gets an error reply, what its completed redis.call's did stays, the server goes on serving.
+const SCRIPT_TIME_LIMIT: Duration = Duration::from_secs(5);
 
 /// Command execution context passed from server to Lua engine
 pub struct LuaCommandContext {
@@ -37,7 +41,18 @@ impl LuaEngine {
         let lua = self.create_lua_context(ctx)?;
         self.setup_keys_and_args(&lua, keys, args)?;
         
+        // The script runs on the only command thread: bound its run time. A count hook (global: coroutines inherit it)
+        // looks at the clock every 100 000 VM instructions; past the limit it raises an error, and from then on at
+        // every instruction, so that a script that catches the error with pcall cannot go on either.
         let start_time = Instant::now();
+        lua.set_global_hook(HookTriggers::new().every_nth_instruction(100_000), move |lua, _debug| {
+            if start_time.elapsed() < SCRIPT_TIME_LIMIT {
+                return Ok(VmState::Continue);
+            }
+            let expired = || mlua::Error::RuntimeError(format!("script exceeded the time limit of {} s", SCRIPT_TIME_LIMIT.as_secs()));
+            lua.set_global_hook(HookTriggers::new().every_nth_instruction(1), move |_lua, _debug| Err(expired()))?;
+            Err(expired())
+        }).map_err(|e| FerrousError::LuaError(e.to_string()))?;
         let result = lua.load(script).eval::<LuaValue>();
         
         match result {
